@@ -1,26 +1,31 @@
 #!/bin/bash
-# usage: tools/seedmatrix.sh [seed-name ...]   (default: every directory under /verif/seeded)
-# Applies each confirmed seeded change to /repo, runs the quick check of its
-# property (plus any listed in its meta.json "also_run"), reverts /repo, and
-# records the exit codes in seeded/<name>/result.json. /repo must be clean.
+# usage: tools/seedmatrix.sh [-t tag] [seed-name ...]   (default: every directory under /verif/seeded)
+# Applies each confirmed seeded change to a scratch worktree of /repo HEAD
+# (outside /repo and /verif; removed at the end), runs the quick check of its
+# property (plus any listed in its meta.json "also_run") against that worktree
+# (VERIF_REPO, see cmd/verifctl) and records the exit codes in
+# seeded/<name>/result.json. /repo itself and evidence/ are not touched.
 set -u
 cd /verif
-[ -z "$(git -C /repo status --porcelain)" ] || { echo "/repo not clean"; exit 2; }
-trap 'git -C /repo checkout -q -- . ; git -C /repo clean -fdq' EXIT
+tag=sm$$
+if [ "${1:-}" = "-t" ]; then tag=$2; shift 2; fi
+wt=/tmp/seedrepo.$tag
+git -C /repo worktree add -q --detach "$wt" HEAD || exit 2
+trap 'git -C /repo worktree remove --force "$wt" >/dev/null 2>&1; rm -rf /verif/replays/new-'$tag' /verif/.alt/'$tag' /verif/.out/*-'$tag' /verif/.bin/*-'$tag'.test' EXIT
 names=("$@"); [ ${#names[@]} -gt 0 ] || names=($(ls seeded | grep -E '^C[0-9]+-'))
 for n in "${names[@]}"; do
   d=seeded/$n
   id=${n%%-*}
   also=$(python3 -c "import json;print(' '.join(json.load(open('$d/meta.json')).get('also_run',[])))")
-  git -C /repo apply "/verif/$d/patch.diff" || { echo "$n: patch does not apply"; continue; }
+  git -C "$wt" apply "/verif/$d/patch.diff" || { echo "$n: patch does not apply"; continue; }
   res="{"
   for c in $id $also; do
-    out=$(./check "$c" quick 2>&1); rc=$?
+    out=$(VERIF_REPO="$wt" VERIF_TAG="$tag" ./check "$c" quick 2>&1); rc=$?
     first=$(echo "$out" | grep -E "^  [a-zA-Z]" | head -1 | cut -c3-240 | python3 -c "import json,sys;print(json.dumps(sys.stdin.read().strip()))")
     res="$res\"$c\": {\"exit\": $rc, \"first_message\": $first},"
     echo "$n: ./check $c quick -> exit $rc"
   done
   echo "${res%,}}" > "$d/result.json"
-  git -C /repo checkout -q -- . ; git -C /repo clean -fdq
-  rm -rf replays/new
+  git -C "$wt" checkout -q -- . ; git -C "$wt" clean -fdq
+  rm -rf "replays/new-$tag"
 done
